@@ -52,11 +52,12 @@ def quat_matrix(q):
 
 
 def coord(lo=-1.0, hi=1.0):
-    """floats in [lo, hi]; magnitudes below 1e-100 become exact zero (values
-    whose squares underflow are not generated, DESIGN 8.3)"""
+    """floats in [lo, hi]; magnitudes below 1e-30 become exact zero (values
+    whose squares - or the squares of whose products, e.g. a rotation entry
+    times a direction component - underflow are not generated, DESIGN 8.3)"""
     return st.floats(min_value=lo, max_value=hi, allow_nan=False,
                      allow_infinity=False, width=64).map(
-        lambda x: 0.0 if abs(x) < 1e-100 else x)
+        lambda x: 0.0 if abs(x) < 1e-30 else x)
 
 
 def _unitf(lo=-1.0, hi=1.0):
@@ -77,9 +78,9 @@ rot_composed = st.builds(lambda A, B: A.dot(B), rot_random,
 
 
 def _clean_rotation(M):
-    """entries below 1e-100 become exact zeros (see flush_tiny)"""
+    """entries below 1e-30 become exact zeros (see flush_tiny)"""
     M = np.array(M, dtype=float)
-    M[np.abs(M) < 1e-100] = 0.0
+    M[np.abs(M) < 1e-30] = 0.0
     return M.tolist()
 
 
@@ -127,7 +128,7 @@ lattice_coord = st.integers(-2, 2).map(float)
 pos_lattice = st.tuples(lattice_coord, lattice_coord, lattice_coord).map(list)
 
 
-def _flush_abs(v, thr=1e-100):
+def _flush_abs(v, thr=1e-30):
     return [0.0 if abs(x) < thr else float(x) for x in v]
 
 
@@ -162,7 +163,7 @@ _ZERO_COMP = [list(map(float, v)) for v in itertools.product([-1, 0, 1], repeat=
 
 dir_axis = st.sampled_from(_AXES)
 dir_zero_comp = st.sampled_from(_ZERO_COMP)
-def flush_tiny(v, rel=1e-100):
+def flush_tiny(v, rel=1e-30):
     """Components below rel*|v| become exact zeros: squares of such values
     underflow in any hypot-style formula; exact zeros and ordinary small
     values (1e-12) are generated instead (DESIGN 8.3)."""
